@@ -871,7 +871,11 @@ def titleparts_fn(
     if num_return == 0:
         num_return = num_parts
     elif num_return < 0:
-        num_return = max(0, num_parts + num_return)
+        # a negative count strips segments from the end of what follows
+        # the first segment
+        num_return = max(0, num_parts - first + num_return)
+    if num_return == 0:
+        return ""
     parts = parts[2 * first : 2 * (first + num_return) - 1]
     return "".join(parts)
 
